@@ -327,7 +327,13 @@ class SymInputs(_Base):
             r, m = self.ctx.model_for(z3.Not(c))
             if r != "sat":
                 raise E.Inconclusive(f"prove {label}: full-model query {r}")
-            res.failed.append(E.Failure(label, self.model_inputs(m), list(self.ctx.taken), note))
+            try:
+                mi = self.model_inputs(m)
+            except HarnessError as he:
+                # a counterexample exists but cannot be materialised for replay (huge payload):
+                # nothing is reported for it, the path is inconclusive
+                raise E.Inconclusive(f"prove {label}: counterexample not replayable ({he})")
+            res.failed.append(E.Failure(label, mi, list(self.ctx.taken), note))
             ok = False
             break
         if ok:
@@ -399,9 +405,31 @@ class SymInputs(_Base):
                 out[name] = ev(spec[1])
             elif kind == "fn":
                 n = ev(spec[2])
-                if n > 65536:
+                if n > (1 << 22):
                     raise HarnessError(f"payload {name} too large to materialise for replay ({n} bytes)")
-                out[name] = [ev(spec[1](z3.IntVal(i))) for i in range(max(0, n))]
+                if n <= 4096:
+                    out[name] = [ev(spec[1](z3.IntVal(i))) for i in range(max(0, n))]
+                else:
+                    # large payload: read the function interpretation once instead of
+                    # evaluating every index (default value plus the listed points)
+                    vals = None
+                    fi = model[spec[1]]
+                    if fi is not None:
+                        try:
+                            default = fi.else_value()
+                            dv = default.as_long() if z3.is_bv_value(default) else 0
+                            vals = [dv] * n
+                            for k in range(fi.num_entries()):
+                                en = fi.entry(k)
+                                idx = en.arg_value(0).as_long()
+                                if 0 <= idx < n:
+                                    vals[idx] = en.value().as_long()
+                        except Exception:
+                            vals = None
+                    if vals is None:
+                        vals = [0] * n
+                    out[name] = {"rle": True, "n": n, "default": vals[0] if vals else 0,
+                                 "points": {str(i): v for i, v in enumerate(vals) if v != (vals[0] if vals else 0)}}
         return out
 
     def eval_observations(self, model) -> list:
@@ -763,8 +791,15 @@ class ConcInputs(_Base):
         return _rdt.datetime.fromtimestamp(int(self._get(name, max(lo, min(hi, 1_000_000_000)))))
 
     def payload(self, name: str, size):
-        vals = list(self._get(name, []))
+        v = self._get(name, [])
         size = int(size)
+        if isinstance(v, dict) and v.get("rle"):
+            buf = bytearray([v["default"]]) * size
+            for k, x in v["points"].items():
+                if int(k) < size:
+                    buf[int(k)] = x
+            return bytes(buf)
+        vals = list(v)
         vals = (vals + [0] * size)[:size]
         return bytes(vals)
 
